@@ -365,11 +365,11 @@ func (c *compiler) compile(tok *token) []instruction {
 			const indexItem, indexKey = 0, 1
 			res = append(res, c.compile(arg.Tokens[indexItem])...)
 			res = append(res, c.compile(arg.Tokens[indexKey])...)
-			res = append(res, instruction{Code: codeGet})
+			res = append(res, instruction{Code: codeGet, Pos: c.posOf(arg)})
 			res = append(res, todo...)
 			res = append(res, c.compile(arg.Tokens[indexItem])...)
 			res = append(res, c.compile(arg.Tokens[indexKey])...)
-			res = append(res, instruction{Code: codeSet})
+			res = append(res, instruction{Code: codeSet, Pos: c.posOf(arg)})
 		} else if idx, ok := c.importedGlobal(arg); ok { // a variable of an imported package
 			res = append(res, instruction{Code: codeGlobalGet, A: reg(idx)})
 			res = append(res, todo...)
@@ -377,10 +377,10 @@ func (c *compiler) compile(tok *token) []instruction {
 		} else if arg.Symbol == "." {
 			const indexItem, indexKey = 0, 1
 			res = append(res, c.compile(arg.Tokens[indexItem])...)
-			res = append(res, instruction{Code: codeGetAttr, A: reg(c.Globals.Index(arg.Tokens[indexKey].Text))})
+			res = append(res, instruction{Code: codeGetAttr, A: reg(c.Globals.Index(arg.Tokens[indexKey].Text)), Pos: c.posOf(arg)})
 			res = append(res, todo...)
 			res = append(res, c.compile(arg.Tokens[indexItem])...)
-			res = append(res, instruction{Code: codeSetAttr, A: reg(c.Globals.Index(arg.Tokens[indexKey].Text))})
+			res = append(res, instruction{Code: codeSetAttr, A: reg(c.Globals.Index(arg.Tokens[indexKey].Text)), Pos: c.posOf(arg)})
 		} else {
 			getter := codeGlobalGet
 			setter := codeGlobalSet
@@ -502,13 +502,13 @@ func (c *compiler) compile(tok *token) []instruction {
 				const indexItem, indexKey = 0, 1
 				res = append(res, c.compile(arg.Tokens[indexItem])...)
 				res = append(res, c.compile(arg.Tokens[indexKey])...)
-				res = append(res, instruction{Code: codeSet})
+				res = append(res, instruction{Code: codeSet, Pos: c.posOf(arg)})
 			} else if idx, ok := c.importedGlobal(arg); ok { // a variable of an imported package
 				res = append(res, instruction{Code: codeGlobalSet, A: reg(idx)})
 			} else if arg.Symbol == "." {
 				const indexItem, indexKey = 0, 1
 				res = append(res, c.compile(arg.Tokens[indexItem])...)
-				res = append(res, instruction{Code: codeSetAttr, A: reg(c.Globals.Index(arg.Tokens[indexKey].Text))})
+				res = append(res, instruction{Code: codeSetAttr, A: reg(c.Globals.Index(arg.Tokens[indexKey].Text)), Pos: c.posOf(arg)})
 			} else {
 				code := codeGlobalSet
 				lookup := c.Globals
